@@ -276,6 +276,10 @@ func c19Explore(c *fw.Ctx, idx int, tier fw.Tier) {
 		return
 	}
 	// ---- observers on this state
+	if r := e.run("bk", "ls"); r.Code != 0 || !sameListing(r.Stdout, model) {
+		viol("list-alias", fmt.Sprintf("`klog bk ls` (alias of `bookmarks list`) printed\n%q\nmodel: %v", r.Stdout, model))
+		return
+	}
 	if r := e.run("bookmarks", "list"); r.Code != 0 || !sameListing(r.Stdout, model) {
 		viol("list", fmt.Sprintf("`bookmarks list` printed %q (exit %d), the model gives %q", r.Stdout, r.Code, listing(model)))
 		return
@@ -435,7 +439,37 @@ func c19Explore(c *fw.Ctx, idx int, tier fw.Tier) {
 			}})
 		}
 	}
+	// the documented alias spellings of the same operations (bk / bookmark; new = set, rm = unset; -y = --yes)
+	for _, k := range keys {
+		k := k
+		sp := ""
+		for _, x := range c19Spellings[k] {
+			if x != "" {
+				sp = x
+			}
+		}
+		if sp == "" {
+			continue
+		}
+		ops = append(ops,
+			op{args: []string{"bk", "new", e.paths[0], sp}, apply: func(m map[string]string) bool { m[k] = e.paths[0]; return true }},
+			op{args: []string{"bookmark", "set", "--force", e.paths[0], sp}, apply: func(m map[string]string) bool { m[k] = e.paths[0]; return true }},
+			op{args: []string{"bk", "rm", sp}, apply: func(m map[string]string) bool {
+				if _, has := m[k]; !has {
+					return false
+				}
+				delete(m, k)
+				return true
+			}},
+		)
+	}
 	ops = append(ops,
+		op{args: []string{"bk", "clear", "-y"}, apply: func(m map[string]string) bool {
+			for k := range m {
+				delete(m, k)
+			}
+			return true
+		}},
 		op{args: []string{"bookmarks", "unset", "nope"}, apply: func(m map[string]string) bool { return false }},
 		op{args: []string{"bookmarks", "unset", "@a "}, apply: func(m map[string]string) bool { return false }},
 		op{args: []string{"bookmarks", "clear", "--yes"}, apply: func(m map[string]string) bool {
